@@ -682,6 +682,31 @@ theorem construct_commit_construct (classes : List ClassSpec) (fuel cls : Nat) (
   obtain ⟨hwf, hn⟩ := construct_wf classes fuel cls hist s0 obj hc
   rw [construct_after_commit classes fuel cls hist obj s s' hsafe hwf h, hn]
 
+/-! ### the manager-level statement of C03, modulo the per-class reconstruction hooks
+
+What an object hands to `push` (`getattr(obj, link.name)` after the commit callback) and what its constructor makes of the
+pulled values are per-class Python (`Effect.quantity`, `PlayerManager._player_attributes_to_list`, …) - a *hook*. The
+engine theorem reduces "what you set is what you get after save and re-load" to one law per hook. -/
+
+/-- a class's reconstruction hook: API-level object ↔ the values the link engine pushes / pulls -/
+structure Hook (Obj : Type) where
+  toVal : Obj → Val
+  ofVal : Val → Option Obj
+
+/-- the law a hook has to satisfy: its values are well-formed and the constructor inverts the reconstruction on the
+normalised values -/
+def Hook.Law {Obj : Type} (H : Hook Obj) (classes : List ClassSpec) (fuel cls : Nat) (hist : List Nat) : Prop :=
+  ∀ o : Obj, WF classes fuel cls hist (H.toVal o) ∧ H.ofVal (normalize classes fuel cls hist (H.toVal o)) = some o
+
+/-- **what you set is what you get** after commit and construct, for every class whose hook satisfies its law -/
+theorem manager_roundtrip {Obj : Type} (H : Hook Obj) (classes : List ClassSpec) (fuel cls : Nat) (hist : List Nat)
+    (hsafe : tableSafe classes fuel cls hist.length = true) (hlaw : H.Law classes fuel cls hist)
+    (o : Obj) (s s' : Sections) (h : commitObj classes fuel cls hist (H.toVal o) s = .ok s') :
+    (constructObj classes fuel cls hist s').toOption.bind H.ofVal = some o := by
+  obtain ⟨hwf, hinv⟩ := hlaw o
+  rw [construct_after_commit classes fuel cls hist (H.toVal o) s s' hsafe hwf h]
+  simpa [Except.toOption] using hinv
+
 /-! non-vacuity: a two-level demo table (a manager with a counted list of children) -/
 def demo3Classes : List ClassSpec :=
   [{ name := 0, links := [
